@@ -21,7 +21,7 @@ from harness import depthcommon
 PROP = 'C12'
 
 
-def body(ctx, conv, nk, positive, order, dpos, two_depths, via, holes):
+def body(ctx, conv, nk, positive, order, dpos, two_depths, via, holes, zdtype=None):
     from emsarray.operations import depth as depth_ops
     nloc = 2
     # horizontal layout per convention
@@ -44,8 +44,14 @@ def body(ctx, conv, nk, positive, order, dpos, two_depths, via, holes):
     # depth coordinate: symbolic, strictly monotonic in the requested storage order
     z = depthcommon.sym_values(ctx, 'z', (nk,), base=1.0)
     down = positive.lower() == 'down'
+    if zdtype:
+        # whole-metre depths stored in an integer type (unsigned: depths are not negative)
+        levels = [2, 5, 30, 100][:nk]
+        z = numpy.array(levels[::-1] if order == 'deep_first' else levels, dtype=zdtype)
+        if not down:
+            z = (-z.astype('int64')).astype(zdtype)
     # physical depth of level k
-    phys = [z[k] if down else -z[k] for k in range(nk)]
+    phys = [(int(z[k]) if zdtype else z[k]) if down else -(int(z[k]) if zdtype else z[k]) for k in range(nk)]
     if order == 'deep_first':
         ctx.assume(And(*[phys[k] > phys[k + 1] for k in range(nk - 1)]))
     else:
@@ -223,6 +229,11 @@ def cases(tier):
                 yield Case(f'{conv}:{positive}:{order}:dpos{dpos}:nk{nk}:two{two if isinstance(two, str) else int(two)}:holes{int(holes)}', body,
                            dict(conv=conv, nk=nk, positive=positive, order=order, dpos=dpos, two_depths=two, via='function', holes=holes),
                            patches=depthcommon.patches, max_paths=20000, split=16)
+    for zdtype, positive in (('uint16', 'down'), ('uint8', 'down'), ('int16', 'up')):
+        for order in ('deep_first', 'shallow_first'):
+            yield Case(f'plain:{positive}:{order}:dpos0:nk3:two0:holes0:{zdtype}-depths', body,
+                       dict(conv='plain', nk=3, positive=positive, order=order, dpos=0, two_depths=False, via='function', holes=False, zdtype=zdtype),
+                       patches=depthcommon.patches, max_paths=20000, split=16)
     for conv, two, positive in (('cf1d', True, 'down'), ('ugrid', 'same_dim', 'up'), ('ugrid', True, 'up'), ('cf1d', False, 'up')):
         # (SHOC conventions look their depth coordinates up by their fixed names: not exercised through the alias here)
         if q and two == 'same_dim':
